@@ -46,8 +46,8 @@ typedef struct vfiber {
   void* pcs[SHDEPTH];
 } vfiber_t;
 
-enum { K_R, K_W, K_LD, K_ST, K_XCHG, K_FADD, K_FSUB, K_FAND, K_FOR, K_FXOR, K_CAS, K_CAS2, K_FENCE, K_NOTE, K_SWITCH, K_FCREATE, K_FDESTROY, K_RELAX };
-static const char* kname[] = {"r", "w", "ld", "st", "xchg", "fadd", "fsub", "fand", "for", "fxor", "cas", "cas2", "fence", "note", "switch", "fcreate", "fdestroy", "relax"};
+enum { K_R, K_W, K_LD, K_ST, K_XCHG, K_FADD, K_FSUB, K_FAND, K_FOR, K_FXOR, K_CAS, K_CAS2, K_FENCE, K_NOTE, K_SWITCH, K_FCREATE, K_FDESTROY, K_RELAX, K_RQPUSH, K_RQPOP, K_RQSTEAL };
+static const char* kname[] = {"r", "w", "ld", "st", "xchg", "fadd", "fsub", "fand", "for", "fxor", "cas", "cas2", "fence", "note", "switch", "fcreate", "fdestroy", "relax", "rqpush", "rqpop", "rqsteal"};
 
 typedef struct ev {
   uint8_t tid, kind, size, ok;
@@ -378,6 +378,10 @@ static void dump_log(const char* status) {
         break;
       case K_SWITCH:
         fprintf(f, "%d %d %s switch %lu\n", e->tid, e->fiber, fn, (unsigned long)e->a);
+        break;
+      case K_RQPUSH: case K_RQPOP: case K_RQSTEAL:
+        /* a = run queue (deque), b = fiber / -1 EMPTY / -2 ABORT */
+        fprintf(f, "%d %d %s %s %s %s\n", e->tid, e->fiber, fn, kname[e->kind], a, b);
         break;
       case K_FCREATE: case K_FDESTROY: case K_RELAX:
         fprintf(f, "%d %d %s %s %lu\n", e->tid, e->fiber, fn, kname[e->kind], (unsigned long)e->a);
@@ -767,6 +771,39 @@ void vr_fence(int kind) {
   e->a = kind;
 }
 
+/* run-queue API events (call sites in fiber_scheduler_wsd.c are wrapped by rt/shim.h when
+ * compiled with -DVR_WSD_WRAP): the deque operation itself still runs; with the deque's own
+ * cells unregistered it contains no scheduling point, so these events are exact. */
+void vr_rq_push(void* d, void* p) {
+  if (my_tid < 0 || in_rt) return;
+  complete_pending(my_tid);
+  sp(0, 0);
+  ev_t* e = newev(K_RQPUSH, -1, 0, 0);
+  e->a = (uint64_t)d;
+  e->b = (uint64_t)p;
+  epoch++;
+}
+void* vr_rq_pop(void* d, void* r) {
+  if (my_tid < 0 || in_rt) return r;
+  complete_pending(my_tid);
+  ev_t* e = newev(K_RQPOP, -1, 0, 0);
+  e->a = (uint64_t)d;
+  e->b = (uint64_t)r;
+  if ((intptr_t)r != -1) epoch++;
+  sp(0, (intptr_t)r != -1);
+  return r;
+}
+void* vr_rq_steal(void* d, void* r) {
+  if (my_tid < 0 || in_rt) return r;
+  complete_pending(my_tid);
+  ev_t* e = newev(K_RQSTEAL, -1, 0, 0);
+  e->a = (uint64_t)d;
+  e->b = (uint64_t)r;
+  if ((intptr_t)r != -1) epoch++;
+  sp(0, (intptr_t)r != -1);
+  return r;
+}
+
 /* bracket the real cmpxchg16b asm: pre = scheduling point, post = log */
 static __thread int cas2_cell;
 void vr_cas2_pre(volatile void* loc) {
@@ -861,7 +898,8 @@ int timerfd_settime(int fd, int flags, const struct itimerspec* n, struct itimer
 }
 void vr_tick(uint64_t n) {
   if (vtimer_fd >= 0 && n) {
-    ssize_t r = write(vtimer_fd, &n, sizeof n);
+    /* raw syscall: the library under test defines its own write() shim */
+    long r = syscall(SYS_write, vtimer_fd, &n, sizeof n);
     (void)r;
     epoch++;
   }
